@@ -251,6 +251,13 @@ def run(ctx):
                 after_put = h.reach([msgput[0].target], avoid_blocks=mheads)
                 okc = bool(clears) and not any(c.block in after_put and any(s_.block in h.reach([c.target], avoid_blocks=mheads) for s_ in sends) for c in clears)
                 r5.check(okc, "clear-after-send", "Client.buffer is cleared only after the send", "Client.buffer is cleared between appending and sending (the batch would be lost)")
+                # what was appended for this batch does not outlive it: every way from the append of Sync to the next client message passes the clear
+                # (round 6: the clear moved under `if should_send_to_server`, a batch pgcat answers itself left its Sync in the buffer and every later
+                # batch of the client started with it - nothing was sent to the server any more)
+                w5 = h.uncrossed_path([msgput[0].target], mheads, blocks=[c.block for c in clears])
+                r5.check(bool(clears) and w5 is None, "buffer-empty-before-next-message", "after the Sync arm Client.buffer is empty on every path to the next client message",
+                         "the Sync arm can go on to the next client message with its batch still in Client.buffer (when it answered the batch itself): the next batch is appended behind a stale Sync, "
+                         "the first-byte test takes it for `nothing to send` and the server receives nothing for it", "", w5 and h.describe_path(w5))
                 # the loop that drains the buffered batch precedes the append of Sync
                 drain = [c for c in h.calls("re:VecDeque::.*pop_front$") if h.dominates(starm, c.block)]
                 r5.check(bool(drain) and all(c.block in h.backreach([msgput[0].block]) for c in drain), "drain-before-sync", "the buffered extended-protocol messages are drained into the buffer before Sync is appended", "the buffered batch is not drained before Sync is appended")
